@@ -186,6 +186,24 @@ def scan_str_consts(repo):
     return consts
 
 
+class AxiomList(list):
+    """List of background axioms without duplicates (by z3 AST identity)."""
+
+    def __init__(self):
+        super().__init__()
+        self._ids = set()
+
+    def append(self, a):
+        k = a.get_id()
+        if k in self._ids:
+            return
+        self._ids.add(k)
+        super().append(a)
+
+    def fresh_since(self, n):
+        return self[n:]
+
+
 class PathEnd:
     def __init__(self, kind, cond, ret, events, st, detail=""):
         self.kind, self.cond, self.ret, self.events, self.state, self.detail = \
@@ -254,7 +272,9 @@ class Exec:
         self.nfresh = 0
         self.ufs = {}
         self.strs = {}
-        self.axioms = []
+        self.axioms = AxiomList()
+        self._ax_done = 0
+        self._strs_done = 0
         self.solver = z3.Solver()
         self.solver.set("timeout", 20000)
         self.stats = {"paths": 0, "blocks": 0, "forks": 0, "pruned": 0, "uf_calls": 0,
@@ -901,10 +921,21 @@ class Exec:
     def feasible(self, cond):
         if not self.prune:
             return True
+        # background axioms are asserted once (incrementally) at the base level of the solver
+        ax = self.axioms
+        if isinstance(ax, AxiomList):
+            new = ax.fresh_since(self._ax_done)
+            self._ax_done = len(ax)
+        else:
+            new = ax[self._ax_done:]
+            self._ax_done = len(ax)
+        for a in new:
+            self.solver.add(a)
+        if len(self.strs) > self._strs_done and len(self.strs) > 1:
+            self.solver.add(z3.Distinct(*self.strs.values()))
+            self._strs_done = len(self.strs)
         self.solver.push()
         try:
-            for a in self.background():
-                self.solver.add(a)
             for c in cond:
                 self.solver.add(c)
             r = self.solver.check()
